@@ -123,28 +123,34 @@ func (w *World) directMods(key string) *directSummary {
 				ms.heaps[m] = true
 			}
 		}
+		inferEmits := false
 		switch sp.Flags["emits"] {
-		case "", "none":
+		case "":
+			inferEmits = true
+			fallthrough
+		case "none":
 			if len(sp.Emits()) > 0 {
 				ms.emits = true
 			}
-			if !sp.Assumed && sp.Flags["emits"] == "" {
-				// repo function with explicit frame: events and allocation inferred from the body
-				if fi, ok := w.Funcs[key]; ok {
-					b := newModSet()
-					var callees []string
-					w.collectMods(fi.Pkg, nil, fi.Body, b, &callees)
-					sub := newModSet()
-					sub.addAll(b)
-					for _, ck := range callees {
-						sub.addAll(w.modsOfFunc(ck, nil, nil))
-					}
-					ms.emits = ms.emits || sub.emits
-					ms.allocs = ms.allocs || sub.allocs
-				}
-			}
 		default:
 			ms.emits = true
+		}
+		if !sp.Assumed {
+			// repo function with explicit frame: events (unless declared) and allocation inferred from the body
+			if fi, ok := w.Funcs[key]; ok {
+				b := newModSet()
+				var callees []string
+				w.collectMods(fi.Pkg, nil, fi.Body, b, &callees)
+				sub := newModSet()
+				sub.addAll(b)
+				for _, ck := range callees {
+					sub.addAll(w.modsOfFunc(ck, nil, nil))
+				}
+				if inferEmits {
+					ms.emits = ms.emits || sub.emits
+				}
+				ms.allocs = ms.allocs || sub.allocs
+			}
 		}
 		if sp.Flags["allocs"] != "" {
 			ms.allocs = true
